@@ -306,10 +306,10 @@ theorem cloneN_sim (hA : AttrSim α α' am) (Q : VId → Prop) (lo : Nat) :
     obtain ⟨hb, hnb⟩ := cloneBodies_sim hA bodies vm next ρf ρ hsim hlt hst.2 hsi hcl
     simp only [cloneN, evalNF, eraseN, Node.outs]
     rw [hA attrs, hsim.args ins, hb]
-    have hres : nodeResults I op (resolveAttrs α' attrs) (freshIds (cloneBodies am vm next bodies).2 outs.length)
+    have hres : nodeResultsF I op (resolveAttrs α' attrs) (freshIds (cloneBodies am vm next bodies).2 outs.length)
         (evalBodiesF I Φ α' bodies ρf) (trimV (evalArgs ρf ins)) =
-        nodeResults I op (resolveAttrs α' attrs) outs (evalBodiesF I Φ α' bodies ρf) (trimV (evalArgs ρf ins)) :=
-      nodeResults_outs I hst.1 _ _ _ _ _
+        nodeResultsF I op (resolveAttrs α' attrs) outs (evalBodiesF I Φ α' bodies ρf) (trimV (evalArgs ρf ins)) :=
+      nodeResultsF_outs I hst.1 _ _ _ _ _
     rw [hres]
     refine ⟨?_, ?_, ?_, ?_, ?_, hvf.fresh outs (Nat.le_trans hlo hnb)⟩
     · exact hsim.bind outs _ _ (fun v w hw => not_mem_freshIds_of_lt (Nat.lt_of_lt_of_le (hlt v w hw) hnb))
